@@ -605,6 +605,7 @@ fn eval_assignment(env: &Env, par_lines: &[Vec<LineMap>]) -> Eval {
                 };
                 if lw == cfg.width && cfg.width > 0 && pl.len() >= 2 {
                     ev.notes.push("C02-exact-fit-line");
+                    ev.nt = true;
                 }
                 if lw > cfg.width {
                     let content = &par[l.s..l.e];
@@ -626,6 +627,7 @@ fn eval_assignment(env: &Env, par_lines: &[Vec<LineMap>]) -> Eval {
                     ev.check("C02-fits-or-unbreakable", ok, &|| json!({"line_no": l.li, "line": lines[l.li].to_string(), "line_width": lw, "lines": lines_json(lines)}));
                     if ok {
                         ev.notes.push("C02-overflow-accepted-by-exception");
+                        ev.nt = true;
                     }
                 } else {
                     ev.check("C02-fits-or-unbreakable", true, &|| Value::Null);
